@@ -392,3 +392,210 @@ def replay_unwhitened(model, params, clause, info):
         bad = not (torch.allclose(out.mean, mean, atol=1e-8) and torch.allclose(out.covariance_matrix, cov, atol=1e-7))
     return {"violates": bool(bad), "detail": f"unwhitened q(f) with jitter_val={jit}: max mean diff {(out.mean - mean).abs().max().item():.2e}, max covariance diff {(out.covariance_matrix - cov).abs().max().item():.2e}",
             "entry": {"module": "contracts.C14_variational", "function": "replay_unwhitened", "args": [model, list(params), clause, info]}}
+
+
+# ------------------------------------------------------------------ multitask wrappers ---------------------------------------------
+IM = "gpytorch.variational.independent_multitask_variational_strategy.IndependentMultitaskVariationalStrategy"
+LMC = "gpytorch.variational.lmc_variational_strategy.LMCVariationalStrategy"
+VS_BASE = "gpytorch.variational._variational_strategy._VariationalStrategy"
+
+
+def wrapper_setup(c, qual, dist, **fields):
+    base_calls = []
+    base = Stub("base_variational_strategy", methods={"__call__": lambda *a, **k: (base_calls.append((list(a), dict(k))), dist)[1]}, isa=("_VariationalStrategy", "Module"))
+    o = module_obj(c, qual, "wrapper", **fields)
+    o.fields["_modules"].d["base_variational_strategy"] = base
+    return o, base, base_calls
+
+
+@case("C14", clause="independent_multitask", name="independent_task_indices", expand=lambda ix: [()], replay=lambda *a: replay_wrappers(*a), functions=[f"{IM}.__call__"])
+def independent_task_indices(c):
+    """one task per input: with the base q(f) a batch of T independent GPs over the same n inputs and task index t_i in [0, T) for input i,
+    mean[i] = mu_{t_i}[i]  and  cov[i, j] = K_{t_i}[i, j] if t_i == t_j else 0  (inputs of different tasks are independent)"""
+    it, ctx = c.it, c.ctx
+    T, n = c.size("T"), c.size("n")
+    c.assume(z3.And(T.t >= 1, n.t >= 1))
+    dist = make_mvn(c, "base_q", [T.t], n.t)
+    mu, K = dist.fields["loc"], dist.fields["_covar"]
+    o, base, calls = wrapper_setup(c, IM, dist, task_dim=VNum(z3.IntVal(-1)), num_tasks=VNum(T.t))
+    x = sym_tensor("x", [n.t, c.size("d").t])
+    idx = sym_tensor("task_indices", [n.t], sort="int")
+    i, j = ivar("i"), ivar("j")
+    c.assume(z3.And(i >= 0, i < n.t, j >= 0, j < n.t))
+    for q in (i, j):
+        c.assume(z3.And(idx.at([q]) >= 0, idx.at([q]) < T.t))
+    res = it.call(ctx, c.getattr(o, "__call__"), [x], {"task_indices": idx})
+    c.prove("independent.base_strategy_called_once_on_x", z3.BoolVal(len(calls) == 1 and calls[0][0][0] is x))
+    okr = isinstance(res, VObj) and res.cls.name == "MultivariateNormal"
+    c.prove("independent.returns_MultivariateNormal", z3.BoolVal(okr))
+    if not okr:
+        return
+    mean = res.fields["loc"]
+    cov = res.fields.get("_covar")
+    cov = cov if cov is not None else res.fields.get("covariance_matrix")
+    ok1 = len(mean.dims) == 1
+    c.prove("independent.task_indices.mean", z3.And(mean.dims[0].size == n.t, mean.at_dims([i]) == mu.at([idx.at([i]), i])) if ok1 else z3.BoolVal(False))
+    ok2 = cov is not None and len(cov.dims) == 2
+    if not ok2:
+        c.fail("independent.task_indices.covariance_shape", f"fields {sorted(res.fields)}; covariance dims {None if cov is None else [str(d.size) for d in cov.dims]}")
+        return
+    c.prove("independent.task_indices.covariance", z3.And(cov.dims[0].size == n.t, cov.dims[1].size == n.t,
+                                                          cov.at_dims([i, j]) == z3.If(idx.at([i]) == idx.at([j]), K.at([idx.at([i]), i, j]), z3.RealVal(0))) if ok2 else z3.BoolVal(False))
+
+
+@case("C14", clause="kl_sum", name="wrapper_kl", expand=lambda ix: [(w, dim, br) for w in ("independent", "lmc") for dim in (-1, -2) for br in (1, 2) if -dim <= br],
+      replay=lambda *a: replay_wrappers(*a), functions=[f"{IM}.kl_divergence", f"{LMC}.kl_divergence"])
+def wrapper_kl(c, w, dim, br):
+    """the wrapper's KL is the sum of the latent / task GPs' KLs: _VariationalStrategy.kl_divergence() (contract: KL(q(u) || p(u)) per batch element,
+    C14 kl clause) summed over the configured task / latent batch dimension"""
+    it, ctx = c.it, c.ctx
+    bs = [c.size(f"B{q}").t for q in range(br)]
+    KL = sym_tensor("latent_kl", bs)
+    qual, field = (IM, "task_dim") if w == "independent" else (LMC, "latent_dim")
+    o = module_obj(c, qual, "wrapper", **{field: VNum(z3.IntVal(dim))})
+    calls = []
+
+    def hook(it_, ctx_, fi, args, kwargs):
+        if not isinstance(fi, tuple) and fi.name == "kl_divergence" and fi.qualname.startswith(VS_BASE) and args and args[0] is o:
+            calls.append(1)
+            return KL
+        return NotImplemented
+
+    it.call_hooks.append(hook)
+    res = it.call(ctx, c.getattr(o, "kl_divergence"), [], {})
+    c.prove("wrapper_kl.base_kl_evaluated_once", z3.BoolVal(len(calls) == 1))
+    p = br + dim
+    rest = [q for q in range(br) if q != p]
+    b = [ivar("b") for _ in range(br)]
+    for v, s_ in zip(b, bs):
+        c.assume(z3.And(v >= 0, v < s_))
+    ok = isinstance(res, VTensor) and len(res.dims) == br - 1
+    want = mk_sum(lambda t: KL.at([t if q == p else b[q] for q in range(br)]), bs[p])
+    c.prove("wrapper_kl.is_sum_over_the_configured_dimension", z3.And(*[res.dims[a].size == bs[q] for a, q in enumerate(rest)], res.at_dims([b[q] for q in rest]) == want) if ok else z3.BoolVal(False))
+
+
+def replay_wrappers(model, params, clause, info):
+    from bounded import C14_closed_forms
+    import json
+    import os
+    import re
+    r = {"violations": []}
+    for only in ("independent_multitask/", "lmc/"):
+        r["violations"] += C14_closed_forms.run("quick", 0, only=only)["violations"]
+    kf = json.load(open(os.path.join(os.path.dirname(os.path.dirname(os.path.abspath(__file__))), "known_findings.json")))
+    pats = [re.compile(f["match"]) for f in kf["findings"] if f["property"] == "C14"]
+    bad = [v for v in r["violations"] if not any(p.fullmatch("bounded:" + v["key"]) for p in pats)]
+    return {"violates": bool(bad), "detail": "; ".join(f"{v['key']}: {v['detail']}" for v in bad[:5])[:700] or "multitask wrappers agree with the dense closed forms on the real code (known findings aside)",
+            "entry": {"module": "contracts.C14_variational", "function": "replay_wrappers", "args": [model, list(params), clause, info]}}
+
+
+@case("C14", clause="lmc", name="lmc_call", expand=lambda ix: [(mode,) for mode in ("all_tasks", "task_indices")], replay=lambda *a: replay_lmc(*a), functions=[f"{LMC}.__call__"], timeout=300)
+def lmc_call(c, mode):
+    """f_t = sum_l W[l, t] g_l with independent latent GPs g_l ~ q_l (the base strategy's batch of L distributions over the same n inputs):
+    all tasks:   mean[i, t] = sum_l mu_l[i] W[l, t],  cov[(i, t), (j, t')] = sum_l K_l[i, j] W[l, t] W[l, t'] + jitter [(i, t) == (j, t')]   (interleaved layout, C11)
+    one task per input (coefficients selected by the helper, contract SEL[l, i] = W[l, t_i]):
+                 mean[i] = sum_l mu_l[i] SEL[l, i],   cov[i, j] = sum_l K_l[i, j] SEL[l, i] SEL[l, j] + jitter [i == j]"""
+    it, ctx = c.it, c.ctx
+    L, T, n = c.size("L"), c.size("T"), c.size("n")
+    c.assume(z3.And(L.t >= 1, T.t >= 1, n.t >= 1))
+    dist = make_mvn(c, "latent_q", [L.t], n.t)
+    mu, K = dist.fields["loc"], dist.fields["_covar"]
+    jit = c.real("jitter")
+    c.assume(jit.t >= 0)
+    o, base, calls = wrapper_setup(c, LMC, dist, latent_dim=VNum(z3.IntVal(-1)), num_tasks=VNum(T.t), num_latents=VNum(L.t), _jitter_val=jit)
+    W = sym_tensor("lmc_coefficients", [L.t, T.t])
+    o.fields["_parameters"].d["lmc_coefficients"] = W
+    x = sym_tensor("x", [n.t, c.size("d").t])
+    i, j, t, u = ivar("i"), ivar("j"), ivar("t"), ivar("u")
+    c.assume(z3.And(i >= 0, i < n.t, j >= 0, j < n.t, t >= 0, t < T.t, u >= 0, u < T.t))
+    if mode == "all_tasks":
+        res = it.call(ctx, c.getattr(o, "__call__"), [x], {})
+        c.prove("lmc.base_strategy_called_once_on_x", z3.BoolVal(len(calls) == 1 and calls[0][0][0] is x))
+        okr = isinstance(res, VObj) and res.cls.name == "MultitaskMultivariateNormal"
+        c.prove("lmc.all_tasks.returns_MultitaskMultivariateNormal", z3.BoolVal(okr))
+        if not okr:
+            return
+        from contracts.dist_spec import View
+        v = View(c, res)
+        c.prove("lmc.all_tasks.event_shape_is_n_by_T_interleaved", z3.And(z3.BoolVal(v.interleaved is True and v.batch_rank == 0), v.n == n.t, v.t == T.t))
+        c.prove("lmc.all_tasks.mean", v.mean_at([], [i, t]) == mk_sum(lambda l: mu.at([l, i]) * W.at([l, t]), L.t))
+        c.prove("lmc.all_tasks.covariance", v.cov_at([], [i, t], [j, u]) == mk_sum(lambda l: (K.at([l, i, j]) * W.at([l, t])) * W.at([l, u]), L.t)
+                + z3.If(z3.And(i == j, t == u), jit.t, z3.RealVal(0)))
+        return
+    idx = sym_tensor("task_indices", [n.t], sort="int")
+    SEL = sym_tensor("selected_coefficients", [L.t, n.t])
+    sel_calls = []
+
+    def hook(it_, ctx_, fi, args, kwargs):
+        if not isinstance(fi, tuple) and fi.name == "_select_lmc_coefficients":
+            sel_calls.append(list(args))
+            return SEL
+        return NotImplemented
+
+    it.call_hooks.append(hook)
+    c.ctx.assumptions.add("callee contract (trusted; exercised by the bounded tier only): _select_lmc_coefficients(W, t)[l, i] = W[l, t_i] via linear_operator's left_interp")
+    res = it.call(ctx, c.getattr(o, "__call__"), [x], {"task_indices": idx})
+    c.prove("lmc.task_indices.coefficients_selected_once_from_the_parameter_by_task_indices", z3.BoolVal(len(sel_calls) == 1 and sel_calls[0][0] is W and sel_calls[0][1] is idx))
+    okr = isinstance(res, VObj) and res.cls.name == "MultivariateNormal"
+    c.prove("lmc.task_indices.returns_MultivariateNormal", z3.BoolVal(okr))
+    if not okr:
+        return
+    mean = res.fields["loc"]
+    cov = res.fields.get("_covar")
+    cov = cov if cov is not None else res.fields.get("covariance_matrix")
+    ok1 = len(mean.dims) == 1
+    c.prove("lmc.task_indices.mean", z3.And(mean.dims[0].size == n.t, mean.at_dims([i]) == mk_sum(lambda l: mu.at([l, i]) * SEL.at([l, i]), L.t)) if ok1 else z3.BoolVal(False))
+    ok2 = cov is not None and len(cov.dims) == 2
+    c.prove("lmc.task_indices.covariance", z3.And(cov.dims[0].size == n.t, cov.at_dims([i, j]) == mk_sum(lambda l: (K.at([l, i, j]) * SEL.at([l, i])) * SEL.at([l, j]), L.t)
+                                                  + z3.If(i == j, jit.t, z3.RealVal(0))) if ok2 else z3.BoolVal(False))
+
+
+def replay_lmc(model, params, clause, info):
+    """a real LMC model (L = 3 latent SVGPs, T = 2 tasks, jitter_val = 0.3) against the contract's formulas evaluated on the base strategy's own output"""
+    import torch
+    import gpytorch
+    (mode,) = params
+    torch.manual_seed(4)
+    L, T, m, n, jit = 3, 2, 4, 5, 0.3
+    Z = torch.rand(L, m, 1, dtype=torch.double)
+    X = torch.rand(n, 1, dtype=torch.double)
+
+    class G(gpytorch.models.ApproximateGP):
+        def __init__(self):
+            vd = gpytorch.variational.CholeskyVariationalDistribution(m, batch_shape=torch.Size([L]))
+            base = gpytorch.variational.VariationalStrategy(self, Z, vd, learn_inducing_locations=False)
+            super().__init__(gpytorch.variational.LMCVariationalStrategy(base, num_tasks=T, num_latents=L, latent_dim=-1, jitter_val=jit))
+            self.mean_module = gpytorch.means.ConstantMean(batch_shape=torch.Size([L]))
+            self.covar_module = gpytorch.kernels.RBFKernel(batch_shape=torch.Size([L]))
+
+        def forward(self, x):
+            return gpytorch.distributions.MultivariateNormal(self.mean_module(x), self.covar_module(x))
+
+    g = G().double()
+    with torch.no_grad():
+        g.mean_module.constant.copy_(torch.tensor([0.3, -0.2, 0.5], dtype=torch.double))
+        vd = g.variational_strategy.base_variational_strategy._variational_distribution
+        vd.variational_mean.copy_(torch.randn(L, m, dtype=torch.double))
+        vd.chol_variational_covar.copy_(torch.randn(L, m, m, dtype=torch.double).tril() * 0.3 + torch.eye(m, dtype=torch.double))
+    g.eval()
+    with torch.no_grad():
+        g(X)  # initialisation pass
+        lat = g.variational_strategy.base_variational_strategy(X)
+        mu, K = lat.mean, lat.covariance_matrix
+        W = g.variational_strategy.lmc_coefficients
+        if mode == "all_tasks":
+            out = g(X)
+            mean = torch.einsum("li,lt->it", mu, W)
+            cov = torch.einsum("lij,lt,lu->itju", K, W, W).reshape(n * T, n * T) + jit * torch.eye(n * T, dtype=torch.double)
+            bad = not (isinstance(out, gpytorch.distributions.MultitaskMultivariateNormal) and torch.allclose(out.mean, mean, atol=1e-8) and torch.allclose(out.covariance_matrix, cov, atol=1e-8))
+            det = f"max mean diff {(out.mean - mean).abs().max().item():.2e}, max covariance diff {(out.covariance_matrix - cov).abs().max().item():.2e}"
+        else:
+            ti = torch.tensor([0, 1, 1, 0, 1])
+            out = g(X, task_indices=ti)
+            SEL = W[:, ti]
+            mean = (mu * SEL).sum(0)
+            cov = (K * SEL[:, :, None] * SEL[:, None, :]).sum(0) + jit * torch.eye(n, dtype=torch.double)
+            bad = not (torch.allclose(out.mean, mean, atol=1e-8) and torch.allclose(out.covariance_matrix, cov, atol=1e-8))
+            det = f"max mean diff {(out.mean - mean).abs().max().item():.2e}, max covariance diff {(out.covariance_matrix - cov).abs().max().item():.2e}"
+    return {"violates": bool(bad), "detail": f"LMC ({mode}), L={L}, T={T}, jitter_val={jit}: {det}",
+            "entry": {"module": "contracts.C14_variational", "function": "replay_lmc", "args": [model, list(params), clause, info]}}
